@@ -133,6 +133,25 @@ func applyFault(s *mainSession, a C10Attempt, serving map[endpoint]*endpointMode
 				}
 			}
 		}
+		// legacy ports listen on all interfaces: the tester can hold the TCP side of one the serving configuration does not use
+		var legacySlots []int
+		seenL := map[int]bool{}
+		for _, k := range cfg.Legacy {
+			if _, held := serving[endpoint{"tcp", s.pt.addr("127.0.0.1", k.Slot)}]; !held && !seenL[k.Slot] {
+				seenL[k.Slot] = true
+				legacySlots = append(legacySlots, k.Slot)
+			}
+		}
+		if len(legacySlots) > 0 && (len(cands) == 0 || a.Arg2%3 == 0) {
+			slot := legacySlots[a.Arg%len(legacySlots)]
+			h, err := net.Listen("tcp", fmt.Sprintf(":%d", s.pt.ports[slot]))
+			if err != nil {
+				return s.writeConfig(yaml), false, -1, release
+			}
+			release = func() { h.Close() }
+			// legacy ports are started first, in map order: how many listeners were acquired before is not known
+			return s.writeConfig(yaml), true, 1, release
+		}
 		if len(cands) == 0 {
 			return s.writeConfig(yaml), false, -1, release
 		}
